@@ -14,8 +14,9 @@
     The text templating itself is not modelled; the harness executes the generated module and
     compares it with [run (gen b)].
 
-    [*_orig] is the behaviour of /repo before the proposed fixes D20 (no variable k) and D20c
-    (loop [while err > tol], left by a NaN error sum). *)
+    [*_orig] is the behaviour of /repo before the fixes D20 (commit c963a6f; no variable k) and
+    D20c (commit e6449a4; loop [while err > tol], left by a NaN error sum).  D20d (91a2a19, raw
+    docstring) concerns the text of the module only and has no counterpart in the model. *)
 From Coq Require Import List String Bool Arith PrimFloat.
 From SFC.Base Require Import Res Str Expr.
 Import ListNotations.
@@ -75,7 +76,7 @@ Fixpoint lookup (a : string) (env : list (string * float)) : option float :=
 Fixpoint count_from (x : float) (n : nat) : list float :=
   match n with O => [] | S m => x :: count_from (x + 1)%float m end.
 
-(** [DefineStepVariable] (proposed fix D20): if some endogenous right-hand side uses the token k
+(** [DefineStepVariable] (fix D20): if some endogenous right-hand side uses the token k
     (or some lagged variable has source k) and no variable is called k, add the exogenous series
     k = 0., 1., ..., MaxTime. *)
 Definition uses_k (b : block) : bool :=
